@@ -129,6 +129,7 @@ func (g *G) IgnoreFile() []byte {
 	if len(lines) == 0 {
 		lines = []string{"build/"}
 	}
+
 	// the order of the entries is drawn too (a rule must not depend on its position)
 	for i := len(lines) - 1; i > 0; i-- {
 		j := g.Int(0, i, "shuffle")
@@ -462,6 +463,23 @@ func (g *G) FreeBranch() string {
 				related = append(related, n)
 				break
 			}
+		}
+	}
+	// names derived from the branch HEAD is on: what a temporary or lock file of its branch file would be called,
+	// and the name without such a suffix
+	if h := g.E.Cur.HeadBr; h != "" && len(h) < 40 {
+		var derived []string
+		for _, d := range []string{h + ".tmp", h + ".lock", h + "~", strings.TrimSuffix(h, ".tmp"), strings.TrimSuffix(h, ".lock")} {
+			if _, ok := g.E.Cur.Branches[d]; !ok && d != "" && d != h {
+				derived = append(derived, d)
+			}
+		}
+		pct := 15
+		if g.E.P != nil && g.E.P.ID == "C14" {
+			pct = 50 // the log profile has few branch operations: make each of them count
+		}
+		if len(derived) > 0 && g.Chance(pct, "derivedFromHead") {
+			return g.Pick(derived, "derivedBranch")
 		}
 	}
 	if len(xs) == 0 {
